@@ -106,6 +106,11 @@ Definition untouchable_op (reg : registry) (o : op) : bool :=
 (* the guard of the per-operation encoding theorems, at every node *)
 Definition consistent_hugr (reg : registry) : hugrT -> bool := hugr_all (consistent_op reg).
 
+(* the implementation kept the loaded description of this operation (true of everything that is not an opaque
+   operation: there is nothing to choose) *)
+Definition keeps_descr (keep : descr_choice) (o : op) : bool :=
+  match o with OCustom c => keep c | _ => true end.
+
 (* ------------------------------------------------------------------ the serialised document *)
 (* two documents agree except, possibly, in descriptions of Extension operations at the nodes of the document, each
    then being the description of a definition filed under the operation's name; constants (with the documents of
